@@ -378,6 +378,9 @@ func P4() []*Program {
 		{"typeword", "zcharLegacy"},
 		// a name without a single letter or digit (case conversions reduce it to nothing)
 		{"underscores", "__"},
+		// names longer than any file-name stem, identifier or line length a tool might think of capping (64, 128)
+		{"long70", "NewOrderSingleWithAllocationsAndUnderlyingInstrumentLegsRequestAckMsgs"},
+		{"long130", "ExecutionReportForMultilegOrderWithNestedPartiesUnderlyingInstrumentsAndRegulatoryTradeIdentifiersPendingCancelReplaceAcknowledgementsV"},
 	}
 	var out []*Program
 	for _, s := range shapes {
